@@ -41,11 +41,11 @@ func (p Piece) Letter() byte {
 	return c
 }
 
-func Sq(file, rank int) int   { return rank*8 + file }
-func File(s int) int          { return s & 7 }
-func Rank(s int) int          { return s >> 3 }
-func SqName(s int) string     { return string([]byte{byte('a' + File(s)), byte('1' + Rank(s))}) }
-func onBoard(f, r int) bool   { return f >= 0 && f < 8 && r >= 0 && r < 8 }
+func Sq(file, rank int) int { return rank*8 + file }
+func File(s int) int        { return s & 7 }
+func Rank(s int) int        { return s >> 3 }
+func SqName(s int) string   { return string([]byte{byte('a' + File(s)), byte('1' + Rank(s))}) }
+func onBoard(f, r int) bool { return f >= 0 && f < 8 && r >= 0 && r < 8 }
 func ParseSq(s string) (int, bool) {
 	if len(s) != 2 || s[0] < 'a' || s[0] > 'h' || s[1] < '1' || s[1] > '8' {
 		return 0, false
